@@ -220,6 +220,12 @@ func runProperty(repo, verif, prop string, cfg *PropCfg, tier string, overlay ma
 		}
 		fcs = append(fcs, e.VerifyLemma(l, false))
 	}
+	for _, r := range e.Spec.Refines {
+		if !hasProp(r.Props) || overlay != nil {
+			continue
+		}
+		fcs = append(fcs, e.VerifyRefinement(r))
+	}
 	// trusted contracts actually used: every extern contract (they are assumed wherever called)
 	for _, k := range e.Spec.Order {
 		if c := e.Spec.Funcs[k]; c.Trusted && !hasProp(c.Props) {
@@ -550,7 +556,7 @@ func (res *PropResult) writeEvidence(verif, prop string, cfg *PropCfg, tier stri
 		"heap well-formedness at entry: references held in parameters, slices, sync.Maps and fields of objects that exist at entry were allocated before the call",
 		"go statements have no effect on the spawner (a spawned closure is only recorded in the ghost set spawned); a closure value is identified by its function and the values of its singly-assigned captured variables",
 		"higher-order library helpers (retry / backoff helpers, goset.Set.Range, sync.Map.Range) are sequentialised stubs: the closure's non-each ensures are assumed across all its calls (they must be reflexive-transitive two-state relations), each_* ensures for every element when the last call returned true",
-		"interface contracts are assumed for every implementation (no interface-implementation obligations are generated)")
+		"interface contracts are assumed for every implementation, except where a refines obligation (kind refines in per_obligation) proves them from the implementation's contract under a stated coupling")
 	for _, a := range res.Abstract {
 		assumptions = append(assumptions, "abstraction: "+a)
 	}
